@@ -232,7 +232,7 @@ class StmtMixin(object):
             self.raise_exit(st, IndexError, Or(i >= n, i < -n), line)
             pos = z3.If(i < 0, n + i, i)
             el = self.harr(st, '$ELEM')
-            st.heap['$ELEM'] = z3.Store(el, r, z3.Store(z3.Select(el, r), pos, hv.t))
+            st.heap['$ELEM'] = z3.Store(el, r, z3.Store(z3.Select(el, r), self.list_off(st, r) + pos, hv.t))
             return
         raise EngineError('item store on %r' % (base,))
 
@@ -245,6 +245,9 @@ class StmtMixin(object):
                     r = Val.r(base.t)
                     self.raise_exit(st, KeyError, self.dict_get(st, r, idx.t) == ABSENT, s.lineno)
                     self.dict_del(st, r, idx.t)
+                    continue
+                if isinstance(base, V) and base.hint is not None and base.hint.kind == 'list' and self.const_int(idx) == 0:
+                    self.list_method(st, base, 'pop', [idx], s.lineno)      # del l[0]
                     continue
             raise EngineError('unsupported del')
 
